@@ -4,6 +4,9 @@ Complete product: every note of every shipped map x every segment length x every
 of the mentioned positions x {unmentioned positions filled, empty}.
 Level 1: pyx12.syntax.is_syntax_valid (with the note as parsed by the real segment node).
 Level 2: segment_if.is_valid -- differential on the element-error multiset with/without the note.
+Level 3: the same call against the REAL error handler (an open ISA/GS/ST with the segment added): every element and
+segment error that validation reported (level 2's recording handler) must be found in the error tree under the
+segment -- in particular the note's own error when its first element carries an error of its own.
 """
 import itertools, collections
 from mc import core, grammar as G
@@ -77,6 +80,8 @@ def run_case(node, gseg, text, L, present, fill, level, compvar=0):
             out.append(('C14|L1|%s|%s' % (kind, 'missed-violation' if exp else 'false-violation'),
                         'is_syntax_valid(%s, %s) = %r but the definition says violated=%r (present=%s, len=%d)' % (seg.format(), text, ok, exp, present, L)))
         return out
+    if level == 3:
+        return level3(node, seg, text, kind)
     # level 2: differential through segment_if.is_valid
     saved = node.syntax
     try:
@@ -115,6 +120,66 @@ def run_case(node, gseg, text, L, present, fill, level, compvar=0):
     return out
 
 
+class FakeSrc(object):
+    """what the error-tree nodes ask of a reader when they are created"""
+    st_count = 1
+
+    def get_cur_line(self): return 1
+    def get_isa_id(self): return '000000001'
+    def get_gs_id(self): return '1'
+    def get_st_id(self): return '0001'
+    def get_seg_count(self): return 2
+    def get_ls_id(self): return None
+
+
+def real_tree_codes(node, seg):
+    """validate seg with node against a real err_handler -> (verdict, Counter of ('ele'|'seg', code))"""
+    import pyx12.error_handler, pyx12.segment
+    from mc import ref
+    src = FakeSrc()
+    errh = pyx12.error_handler.err_handler()
+    isa = pyx12.segment.Segment(ref.isa(), '~', '*', ':')
+    errh.add_isa_loop(isa, src)
+    errh.add_gs_loop(pyx12.segment.Segment('GS*HC*S*R*20040102*1200*1*X*004010X098A1~', '~', '*', ':'), src)
+    errh.add_st_loop(pyx12.segment.Segment('ST*837*0001~', '~', '*', ':'), src)
+    # in the pipeline the ST segment has been validated by now, which leaves an element cursor behind
+    errh.add_ele(node.get_child_node_by_idx(0))
+    errh.add_seg(node, seg, 2, 2, None)
+    v = node.is_valid(seg, errh)
+    got = collections.Counter()
+    for sn in errh.cur_st_node.children:
+        for e in sn.errors:
+            got[('seg', e[0])] += 1
+        for en in sn.elements:
+            for e in en.errors:
+                got[('ele', e[0])] += 1
+    return v, got
+
+
+def level3(node, seg, text, kind):
+    from mc import impl
+    e1 = impl.errh_list()
+    try:
+        v1 = node.is_valid(seg, e1)
+    except Exception as e:
+        return []          # level 2 reports it
+    want = collections.Counter([('ele', c) for (c, m, v, r) in e1.err_ele] + [('seg', x[0]) for x in e1.err_seg])
+    try:
+        v3, got = real_tree_codes(node, seg)
+    except Exception as e:
+        return [('C14|L3|raises %s@%s' % (type(e).__name__, core.where(e)), 'is_valid(%s) against the real error handler raised %r' % (seg.format(), e))]
+    out = []
+    if bool(v3) != bool(v1):
+        out.append(('C14|L3|verdict differs between handlers', '%s: %r with the recording handler, %r with the real one' % (seg.format(), v1, v3)))
+    if got != want:
+        lost = want - got
+        extra = got - want
+        code = '10' if kind == 'E' else '2'
+        what = 'note error lost' if ('ele', code) in lost else ('errors lost' if lost else 'errors added')
+        out.append(('C14|L3|%s|%s' % (kind, what), '%s (note %s): validation reported %r, the error tree under the segment holds %r' % (seg.format(), text, dict(want), dict(got))))
+    return out
+
+
 def _find(fname, segpath, ordinal):
     from mc import impl
     m = impl.load_map(fname)
@@ -150,8 +215,8 @@ def work(shard):
         for text in gseg.syntax:
             kind, idx = G.syntax_parts(text)
             for L, present, fill in cases_for(text, len(gseg.children)):
-                for level in (1, 2):
-                    for compvar in ((0, 1) if (level == 2 and comps & set(present)) else (0,)):
+                for level in (1, 2, 3):
+                    for compvar in ((0, 1) if (level >= 2 and comps & set(present)) else (0,)):
                         P.n += 1
                         P.transitions += 1
                         r = run_case(node, gseg, text, L, present, fill, level, compvar)
@@ -195,6 +260,6 @@ def run(R):
     R.bounds = {'notes_in_maps': nnotes, 'segment_nodes_explored': sum(len(s[1]) for s in shards),
                 'dedup': 'none (every segment node of every map file)' if R.thorough else 'one node per (segment id, notes, child definition signature)',
                 'lengths': '0..max(mentioned position, child count)+1', 'patterns': 'all subsets of mentioned positions <= length; unmentioned filled / empty'}
-    R.assumptions = ['level 2 is differential: the element errors not caused by the note are whatever the same node reports with the note removed (C15 judges those)']
+    R.assumptions = ['level 3 compares error codes per kind (element / segment) between the recording handler and the real error tree of one open set', 'level 2 is differential: the element errors not caused by the note are whatever the same node reports with the note removed (C15 judges those)']
     R.pmap(work, shards)
     return R.finish(LEVEL, 'complete product of notes x lengths x presence patterns; distinct = (note type, arity, violated?, level)', exhaustive=True)
